@@ -27,10 +27,16 @@ type Hit struct {
 type Variant struct {
 	Clamp       bool // out-of-range slice bounds are clamped (Python) instead of the pure progression filtered to valid indexes
 	NegDefaults bool // omitted bounds of a negative-step slice mean "from the last to the first" (Python) instead of start=0 / end=len
+	// Inclusive is NOT a reading of the statement: it is the reading jp's mutating
+	// operations implement (known finding C13 slice-inclusive): the end is
+	// inclusive, an omitted end is the last element, a start below -len selects
+	// nothing, a negative step walks from start down to end inclusively. It is
+	// only used to recognise that finding, never to accept a result.
+	Inclusive bool
 }
 
 // Variants lists all readings.
-var Variants = []Variant{{true, true}, {true, false}, {false, true}, {false, false}}
+var Variants = []Variant{{Clamp: true, NegDefaults: true}, {Clamp: true}, {NegDefaults: true}, {}}
 
 // MaxEnd is the value jp uses for an omitted slice end.
 const MaxEnd = int(^uint(0) >> 1)
@@ -281,6 +287,28 @@ func SliceIndexes(s []int, n int, v Variant) []int {
 	}
 	if st == 0 {
 		return nil
+	}
+	if v.Inclusive {
+		if len(s) < 2 || end == MaxEnd {
+			end = -1
+		}
+		if start < 0 {
+			start += n
+		}
+		if end < 0 {
+			end += n
+		}
+		if n <= end {
+			end = n - 1
+		}
+		if start < 0 || end < 0 || n <= start {
+			return nil
+		}
+		var out []int
+		for i := start; (0 < st && i <= end) || (st < 0 && end <= i); i += st {
+			out = append(out, i)
+		}
+		return out
 	}
 	if st < 0 && v.NegDefaults {
 		if !hasStart {
